@@ -190,6 +190,22 @@ impl TypeAggregator {
         // Merge the interface's exports
         for (name, source_kind) in &types[id].exports {
             if let Some(target_kind) = self.types[existing].exports.get(name).copied() {
+                // Nested instances are merged rather than chosen between: the merged
+                // instance must satisfy both requirements, so it needs the union of
+                // the exports of the two nested instances. The merge is done on a copy
+                // so that other uses of the target's instance type are left as they are.
+                if let (ItemKind::Instance(target), ItemKind::Instance(source)) =
+                    (target_kind, *source_kind)
+                {
+                    let merged = self.types.add_interface(self.types[target].clone());
+                    self.merge_interface(merged, types, source, checker)
+                        .with_context(|| format!("mismatched type for export `{name}`"))?;
+                    self.types[existing]
+                        .exports
+                        .insert(name.clone(), ItemKind::Instance(merged));
+                    continue;
+                }
+
                 // If the source kind is already a subtype of the target, do nothing
                 if checker
                     .is_subtype(*source_kind, types, target_kind, &self.types)
